@@ -25,6 +25,10 @@ def _mk(items, salt=0):
     for j, (t, v) in enumerate(items):
         if t == "o":
             cmds.append(v)
+        elif t == "x":
+            cmds.append(bytes.fromhex(v))
+        elif t == "f":        # filler element of length v made of one repeated byte
+            cmds.append(bytes([0x5a]) * v)
         else:
             cmds.append(bytes(((i * 7 + j * 13 + salt) % 251) + 1 for i in range(v)))
     return cmds
@@ -40,10 +44,29 @@ def lenclass(n):
         "len1-74" if n < 75 else "len77-254" if n < 255 else "len257-519" if n < 520 else "len>521")
 
 
+def total_length_items(total):
+    """elements (each <= 520 bytes, PUSHDATA2 framing = +3) whose raw serialisation is exactly `total` bytes"""
+    items, left = [], total
+    while left > 523 + 4:
+        items.append(("f", 520))
+        left -= 523
+    # finish with one or two elements; left in 4..527
+    if left <= 76:
+        items.append(("f", left - 1))            # bare length byte
+    elif left <= 257:
+        items.append(("f", left - 2))            # PUSHDATA1
+    elif left <= 523:
+        items.append(("f", left - 3))            # PUSHDATA2
+    else:
+        items += [("f", 300), ("f", left - 303 - 3)]
+    return items
+
+
 def chk_roundtrip(items, salt=0):
     Script = _script()
     cmds = _mk(items, salt)
-    desc = "+".join("%s%d" % (t, v) for t, v in items)
+    desc = "+".join("%s%s" % (t, v) for t, v in items)[:120]
+    items = [("d", len(bytes.fromhex(v))) if t == "x" else ("d", v) if t == "f" else (t, v) for t, v in items]
     bad = [v for t, v in items if t == "d" and not (1 <= v <= 520)]
     st, raw = attempt(lambda: Script(list(cmds)).raw_serialize())
     if any(v > 520 for v in bad):
@@ -247,6 +270,15 @@ def run(ctx):
     cases = [{"k": "rt", "items": [("d", n)], "salt": salt} for n in range(0, 522)]
     cases += [{"k": "rt", "items": [("o", o)]} for o in [0] + list(range(78, 256))]
     ctx.product("single-item", cases, execute)
+    # element CONTENT: every value of a 1-byte element, boundary values in 2-byte elements (data must never be re-read as opcodes)
+    bvals = [0x00, 0x01, 0x10, 0x11, 0x4b, 0x4c, 0x4d, 0x4e, 0x4f, 0x50, 0x51, 0x60, 0x61, 0x7f, 0x80, 0x81, 0xff]
+    cases = [{"k": "rt", "items": [("x", "%02x" % b)]} for b in range(256)]
+    cases += [{"k": "rt", "items": [("x", "%02x%02x" % (a, b))]} for a in bvals for b in bvals]
+    cases += [{"k": "rt", "items": [("o", 0x51), ("x", "%02x" % b), ("o", 0xac)]} for b in bvals]
+    ctx.product("element-content", cases, execute)
+    # total script lengths around the varint boundaries of the length prefix
+    totals = [251, 252, 253, 254, 255, 256, 65534, 65535, 65536, 65537] + ([70000, 131071] if ctx.thorough else [])
+    ctx.product("total-length-varint-boundaries", [{"k": "rt", "items": total_length_items(t)} for t in totals], execute, parallel=False)
     seqs = [list(s) for r in (1, 2, 3) for s in itertools.product(ITEMS, repeat=r)]
     ctx.product("sequences<=3", [{"k": "rt", "items": s, "salt": salt} for s in seqs], execute)
     pre = [s for s in seqs if len(s) <= (3 if ctx.thorough else 2)]
